@@ -290,7 +290,7 @@ impl Scenario for C10 {
                     let Some(c) = char::from_u32(cp) else { continue };
                     st.inc("steps.scalars");
                     // byte-neighbour contexts: the scalar next to code units whose low / high byte is 0x00, 0x0A or 0x0D
-                    let text = format!("osu file format v14\n\n[Metadata]\nTitle:a{c}b\nArtist:{c}\nCreator:\u{100}{c}\u{A01}\nVersion:\u{A0A}{c}\u{10A}\nTitleUnicode:\u{4E0A}{c}\u{4E00}\nTags:\u{D00}{c}{c}\u{D}x\u{A00}\nSource:z{c}");
+                    let text = format!("osu file format v14\n\n[Metadata]\n{c}\n{c}x:y\nTitle:a{c}b\nArtist:{c}\nCreator:\u{100}{c}\u{A01}\nVersion:\u{A0A}{c}\u{10A}\nTitleUnicode:\u{4E0A}{c}\u{4E00}\nTags:\u{D00}{c}{c}\u{D}x\u{A00}\nSource:z{c}");
                     let mut first = None;
                     for enc in ENCS {
                         let b = encode_text(&text, enc);
